@@ -367,6 +367,13 @@ func (e ExtResolver) AuthLookupTLSA(ctx context.Context, service, network, domai
 	if err != nil {
 		return false, nil, err
 	}
+	if _, ok := dns.IsDomainName(name); !ok {
+		// With the two labels in front a valid host name can get longer
+		// than a domain name may be: no such record can exist, and a
+		// question with that name is answered with an error (or not at
+		// all), which callers take for a failed lookup.
+		return false, nil, nil
+	}
 
 	msg := new(dns.Msg)
 	msg.SetQuestion(dns.Fqdn(name), dns.TypeTLSA)
